@@ -22,7 +22,7 @@ THEOREMS = [
     "C10_validate_ix_first_language", "C10_validate_ix_last_language", "C10_validate_ixes_exclusive_language",
     "C10_validate_instructions_language", "C10_accepted_shape", "C10_no_marker_survives", "C10_bracket",
     "C10_start", "C10_end", "C10_end_conditions", "C10_not_via_cpi", "C10_third_party_needs_receivership",
-    "C10_withdraw_guard", "C10_receivership_blocks", "C10_discriminators_agree",
+    "C10_withdraw_guard", "C10_receivership_blocks", "C10_discriminators_agree", "C10_none_via_cpi_refuted",
 ]
 RULE = ("txval: every instruction list up to length 4 (quick) / 5 (thorough) over 9-symbol alphabets (and up to 7 over a 4-symbol one), "
         "plus sampled bracket-shaped and random lists up to length 12 over 43 instruction kinds x 10 programs; each line calls the three "
@@ -47,8 +47,9 @@ ASSUMPTIONS = [
     "and start/end are proved to fail there; the allow-list itself is part of the model",
 ]
 OBSERVATIONS = [
-    "marginfi instructions invoked by CPI from an allow-listed program are NOT restricted by the introspection (code comment in validate_instructions "
-    "says so): e.g. [start(A), jupiter{CPI borrow(B)}, repay, end(A)] commits in the sim. Start/end themselves cannot run via CPI (proved, and observed).",
+    "KNOWN FINDING mfi-cpi-inside-bracket (known_findings.json, Coq: C10_none_via_cpi_refuted): marginfi instructions invoked by CPI from an allow-listed "
+    "program are NOT restricted by the introspection (the code comment in validate_instructions says so): e.g. [start(A), jupiter{CPI borrow(B)}, repay, "
+    "end(A)] commits in the sim. Start/end themselves cannot run via CPI (proved, and observed). C10_bracket is the statement restricted to top-level instructions.",
     "between start and end the exclusive list also admits init_liq_record, kamino_withdraw, drift_withdraw and further end instructions, not only "
     "withdraw/repay; a premature end(A) makes the final end fail, so it cannot commit",
     "withdraw / repay in receivership accept ANY signer, not only the recorded liquidation_receiver (is_signer_authorized(.., allow_receivership = true)); "
@@ -245,6 +246,14 @@ def oracle_sim(case, impl):
         if 0 <= fee < (1 << 64) and abs(repaid) <= (1 << 100):
             if seized * ONE > repaid * (ONE + max(fee, MIN_FEE)):
                 return _v("premium-too-high", f"seized {seized} > repaid {repaid} * (1 + max(fee {fee}, 5%))")
+    # (c'') "none via CPI", read literally: no marginfi instruction runs by CPI between start and end.
+    #       The code only restricts TOP-LEVEL instructions (comment in validate_instructions), so this
+    #       is reported under its own stable key (see known_findings.json).
+    for j, tok in enumerate(ixs):
+        t = tok.split()
+        if t[0] == "PX" and i < j < len(ixs) - 1:
+            return _v("mfi-cpi-inside-bracket",
+                      f"marginfi instruction {' '.join(t[2:])} ran via CPI from program {t[1]} at index {j}, between start ({i}) and end")
     return None
 
 
